@@ -777,7 +777,11 @@ def mon_c11(net, obs, opts, mode):
             if abs(dt_rep - (s["tin"] - s["tout"])) > 1e-9:
                 obs.violate("consumer_deltat_inconsistent", "%s: deltat_k=%.9g but t_in - t_outlet = %.9g" % (el, dt_rep, s["tin"] - s["tout"]))
             if abs(q - q_rep) > rt * max(abs(q_rep), 1.0) + 1e-3:
-                tag = "qe_tr_consumer_sequential_inconsistent" if (cmode in ("QE_TR", "QE_DT") and mode != "bidirectional") else "consumer_duty"
+                tag = "consumer_duty"
+                if mode != "bidirectional" and cmode == "QE_TR":
+                    tag = "qe_tr_consumer_sequential_inconsistent"
+                elif mode != "bidirectional" and cmode == "QE_DT":
+                    tag = "qe_dt_consumer_sequential_inconsistent"
                 obs.violate(tag, "%s (%s, %s): reported qext_w=%.8g but m*cp_mean*deltaT=%.8g" % (el, cmode, mode, q_rep, q),
                             qext_w=q_rep, duty=q, mdot=s["m"], deltat=dt_rep)
             # set-points
